@@ -21,9 +21,13 @@ pub mod c42;
 pub mod conv;
 pub mod gt;
 pub mod lp;
+pub mod lpstake;
 pub mod oracle;
 pub mod perp;
 pub mod pure;
+pub mod revertible;
+pub mod rvfix;
+pub mod sdkdiff;
 pub mod smoke;
 pub mod timelock;
 pub mod treasury;
@@ -62,7 +66,10 @@ pub const REGISTRY: &[(&str, fn(&mut Ctx))] = &[
     ("C39", c39::run),
     ("C19", c19::run),
     ("C20", c20::run),
+    ("C21", revertible::run_c21),
     ("C33", c33::run),
+    ("C38", lpstake::run_c38),
+    ("C40", sdkdiff::run_c40),
     ("W1", w1smoke::run),
     ("C36", timelock::run_c36),
     ("C37", treasury::run_c37),
